@@ -1,19 +1,24 @@
 #!/bin/sh
-# tools/matrix.sh : run every seeded change and every mutant against the quick check(s) of its property, each in its own
-# scratch worktree (J2M_REPO) so that /repo is never touched; writes selftest/MATRIX.txt
+# tools/matrix.sh [parallel] : run every seeded change and every mutant against the quick check(s) of its property, each in its own
+# scratch worktree (J2M_REPO) so that /repo is never touched; writes selftest/MATRIX.txt (sorted)
+P=${1:-3}
 OUT=/verif/selftest/MATRIX.txt
-: > $OUT
+JOBS=$(mktemp)
 for d in /verif/seeded/C*; do
   id=$(basename $d)
   chk=${id%%-*}        # seeded/C07-2 is a change against property C07
-  /verif/tools/mutant_wt.sh $d/patch.diff $chk 2>&1 | sed "s/^mutant=patch/seed=$id/" >> $OUT
+  echo "seed=$id $d/patch.diff $chk" >> $JOBS
 done
 while read name rest; do
   [ -n "$name" ] || continue
   checks=$(echo "$rest" | awk '{$NF=""; print}')
-  /verif/tools/mutant_wt.sh /verif/selftest/mutants/$name.diff $checks >> $OUT 2>&1
+  for c in $checks; do echo "mutant=$name /verif/selftest/mutants/$name.diff $c" >> $JOBS; done
 done < /verif/selftest/mutants/REVERTS.txt
 for m in percent_ge_to_gt:C05 number_ge_to_gt:C05 open_before_generate:C17 status_swallow:C17 extend_to_assign:C16 cli_no_anchor:C13 preamble_before_imports:C19 conv_dict_arg0:C18 conv_dict_token:C18 conv_literal_raises:C18; do
-  /verif/tools/mutant_wt.sh /verif/selftest/mutants/${m%%:*}.diff ${m##*:} >> $OUT 2>&1
+  echo "mutant=${m%%:*} /verif/selftest/mutants/${m%%:*}.diff ${m##*:}" >> $JOBS
 done
+: > $OUT.tmp
+xargs -P $P -L 1 sh -c '/verif/tools/mutant_wt.sh "$1" "$2" 2>&1 | sed "s/^mutant=[^ ]*/$0/" | cut -c1-200 >> /verif/selftest/MATRIX.txt.tmp' < $JOBS
+sort $OUT.tmp > $OUT
+rm -f $OUT.tmp $JOBS
 echo MATRIX-DONE >> $OUT
